@@ -8,7 +8,7 @@ ID = 'C09'
 ENGINE = 'E2-style exhaustive enumeration of add_* histories (depth-bounded) + E1 product of header parameters'
 RULE = ("every history of add_* events up to the depth bound (origin first / in the middle / last, sets created in "
         "any order, several origins incl. one in a second named ORIGIN set, named and empty-string-named sets), each completed and written, plus header parameters (sequence "
-        "number, id length, identifier text) given as parameters or as ready-made FileHeaderItem / StorageUnitLabel objects, or edited after construction (header id, FILE-ID, sequence number; also over-long values) x 1..3 logical files with distinct set names; the reassembled record sequence "
+        "number, id length, identifier text) given as parameters or as ready-made FileHeaderItem / StorageUnitLabel objects, or edited after construction (header id, FILE-ID, sequence number; also over-long values); data records must come after the set defining their object, also after a later call into that set was refused because of its name x 1..3 logical files with distinct set names; the reassembled record sequence "
         "of every logical file is checked for header / origin / sets / data order; non-trivial = file written and "
         "order checked")
 ASSUMPTIONS = ["strict reader mc/rp66.py", "reference model mc/model.py"]
